@@ -247,3 +247,43 @@ Proof.
   - apply filter_In in Hee' as [Hee' _].
     assert (e' = e) by (apply (nodup_map_inj e_lpid _ _ _ Hnd Hee' Hee); congruence). subst e'. reflexivity.
 Qed.
+
+(* ------------------------------------------------------------ non-vacuity *)
+
+(* a replacement: replaced_path_id names local path id 1, which the new path keeps *)
+Example ex6b_replaced :
+  map (fun c => (c_replaced c, map e_lpid (c_paths c)))
+      (step_cs (run (empty_table 0) (firstn 6 ex6_ops))
+               (Insert (ex_src 1 1 9 0) 1 0 (Some 1) (ex_attr 104 50) false false None))
+  = [(Some 1, [1])].
+Proof. vm_compute. reflexivity. Qed.
+
+(* restale_llgr names every marked path *)
+Example ex6b_llgr :
+  map (fun c => (c_net c, c_best_changed c, c_any_changed c, c_replaced c, map e_lpid (c_paths c)))
+      (step_cs (run (empty_table 0) (firstn 9 ex6_ops)) (Restale true 2))
+  = [(1, false, true, Some 2, [1; 2; 3]); (1, false, true, Some 3, [1; 2; 3])].
+Proof. vm_compute. reflexivity. Qed.
+
+(* the hypotheses of delta_exporter_sound are met by a path that stays *)
+Example ex6b_delta :
+  let t := run (empty_table 0) (firstn 10 ex6_ops) in
+  let o := nth 10 ex6_ops StartDeferral in
+  exists c e e', In c (step_cs t o) /\ In e (elig_of t (c_net c)) /\ In e' (c_paths c)
+                 /\ e_lpid e = e_lpid e' /\ c_replaced c <> Some (e_lpid e').
+Proof.
+  vm_compute. eexists. eexists. eexists. split; [left; reflexivity|]. split; [left; reflexivity|].
+  split; [left; reflexivity|]. split; [reflexivity|discriminate].
+Qed.
+
+(* a deferring table on which mutators are quiet, and the window consumer's hypotheses *)
+Example ex6b_deferring : t_deferring (run (empty_table 0) (firstn 3 ex6_ops)) = true.
+Proof. reflexivity. Qed.
+
+Example ex6b_window_hyps :
+  consistent ex6_ops /\ startup_deferral (empty_table 0) ex6_ops /\ t_deferring (run (empty_table 0) ex6_ops) = false.
+Proof. split; [exact ex6_consistent|]. split; [exact ex6_startup|reflexivity]. Qed.
+
+(* the allocator on a used set with a hole *)
+Example ex6b_alloc : alloc_id [0; 1; 3; 64] = 2 /\ alloc_id [] = 0 /\ alloc_id [2; 1; 0] = 3.
+Proof. vm_compute. repeat split. Qed.
